@@ -107,8 +107,16 @@ func walletAuthoring(r *evid.Run, dir string, cs int64) {
 		nout := 1 + rg.Intn(3)
 		// what all eligible coins together yield after paying for themselves at their
 		// worst-case signed size (the largest-first strategy may spend every coin)
+		// 1 in 4 placed requests hands the wallet exactly those k coins (explicit
+		// selection): there is nothing to add in a second round, so the request is
+		// either covered by them or refused
+		explicit := placed && !sweepLike && acct == 0 && rg.Intn(4) == 0
+		usable := elig
+		if explicit {
+			usable = elig[:k]
+		}
 		var netAll int64
-		for _, c := range elig {
+		for _, c := range usable {
 			netAll += c.Out.Value - int64(feeFor(rate, worstInputVSize(c.Out.PkScript)))
 		}
 		// overhead + a change output of the largest type; the requested outputs are
@@ -136,13 +144,25 @@ func walletAuthoring(r *evid.Run, dir string, cs int64) {
 		for i, o := range outs {
 			want[i] = wire.TxOut{Value: o.Value, PkScript: append([]byte(nil), o.PkScript...)}
 		}
-		atx, err := f.W.CreateSimpleTx(scp, acct, outs, 1, rate, wallet.CoinSelectionLargest, false)
+		var opts []wallet.TxCreateOption
+		if explicit {
+			var picks []wire.OutPoint
+			for _, c := range elig[:k] {
+				picks = append(picks, c.Op)
+			}
+			opts = append(opts, wallet.WithCustomSelectUtxos(picks))
+			r.Hit("wallet-requests-with-explicitly-selected-coins", 1)
+		}
+		atx, err := f.W.CreateSimpleTx(scp, acct, outs, 1, rate, wallet.CoinSelectionLargest, false, opts...)
 		if acct == waddrmgr.ImportedAddrAccount && err == nil {
 			r.Hit("wallet-authored-from-the-imported-keys-account", 1)
 		}
 		desc := fmt.Sprintf("CreateSimpleTx scope=%v account=%d amount=%d in %d outputs rate=%d (placed on the %d largest of %d eligible coins: %v)", sc, acct, amt, nout, rate, k, len(elig), placed)
 		if sweepLike {
 			desc += " [all scopes, nearly everything the coins yield]"
+		}
+		if explicit {
+			desc += " [those coins selected explicitly]"
 		}
 		if err != nil {
 			log = append(log, desc+" -> "+err.Error())
@@ -151,7 +171,7 @@ func walletAuthoring(r *evid.Run, dir string, cs int64) {
 			// spending every eligible coin is one of the selections largest-first can make
 			var ise txauthor.InputSourceError
 			if (errors.As(err, &ise) || strings.Contains(err.Error(), "insufficient funds")) && netAll >= amt+baseFee+50 {
-				fail("c07:wallet:insufficient-funds-although-covered", fmt.Sprintf("%s: refused with %q although the %d eligible coins yield %d sat after paying for their own worst-case inputs, and outputs + base fee need at most %d", desc, err, len(elig), netAll, amt+baseFee))
+				fail("c07:wallet:insufficient-funds-although-covered", fmt.Sprintf("%s: refused with %q although the %d usable coins yield %d sat after paying for their own worst-case inputs, and outputs + base fee need at most %d", desc, err, len(usable), netAll, amt+baseFee))
 				return
 			}
 			if sweepLike {
